@@ -220,6 +220,10 @@ func (g *Gen) body(c *bodyCtx, depth int, indent string, n int) {
 			c.lines = append(c.lines, indent+"##!=>")
 		case k == 9 && i > 0:
 			name := fmt.Sprintf("s%d", len(c.stored))
+			if g.chance(1, 4) {
+				// any text is a name
+				name = g.pick("part.1", "in:1", "my input", "größe", "x-1_y", "a/b", "{n}") + fmt.Sprint(len(c.stored))
+			}
 			c.stored = append(c.stored, name)
 			g.mark("store")
 			c.lines = append(c.lines, indent+"##!=< "+name)
